@@ -193,7 +193,21 @@ func isClientSide(fi *FuncInfo) bool {
 
 var sourceMethods = map[string]bool{"Attach": true, "Walk": true, "WalkGetAttr": true, "Create": true}
 
+var serverModels = map[*Loaded]*ServerModel{}
+
+// buildServerModel: one model per loaded configuration (checks borrowed from other
+// properties reuse it; the rules only read it).
 func buildServerModel(l *Loaded) *ServerModel {
+	if m := serverModels[l]; m != nil {
+		allDefsLoaded = l
+		return m
+	}
+	m := buildServerModelUncached(l)
+	serverModels[l] = m
+	return m
+}
+
+func buildServerModelUncached(l *Loaded) *ServerModel {
 	allDefsLoaded = l
 	db := buildSiteDB(l, "p9")
 	m := &ServerModel{L: l, DB: db, Info: l.Pkg("p9").TypesInfo, res: map[*FuncInfo]*resolver{}}
@@ -1147,4 +1161,16 @@ func (m *ServerModel) rnorm(fi *FuncInfo, e ast.Expr) string {
 		return ""
 	}
 	return strings.ReplaceAll(m.resolver(fi).str(e), " ", "")
+}
+
+// spawnedBody returns the body a go (or defer) statement runs: the function literal written
+// in place, or the body of the declared function or method that is called.
+func (m *ServerModel) spawnedBody(call *ast.CallExpr) *ast.BlockStmt {
+	if lit, ok := unparen(call.Fun).(*ast.FuncLit); ok {
+		return lit.Body
+	}
+	if fi := m.L.FuncOf(callee(m.Info, call)); fi != nil && fi.Decl.Body != nil {
+		return fi.Decl.Body
+	}
+	return nil
 }
